@@ -2,6 +2,7 @@ package zipslicer
 
 // Replay drivers for Read / ReadWithDirectory nopanic and allocation obligations.
 import (
+	"archive/zip"
 	"bytes"
 	"encoding/binary"
 	"testing"
@@ -34,5 +35,38 @@ func TestReplayReadNoPanic(t *testing.T) {
 			}()
 			_, _ = Read(bytes.NewReader(data), int64(len(data)))
 		}()
+	}
+}
+
+// Replay driver for GetOriginalDirectory obligations (C17): re-serialising an unmodified
+// directory must reproduce the original tail of the archive.
+func TestReplayOriginalDirectoryRoundTrip(t *testing.T) {
+	var zbuf bytes.Buffer
+	zw := zip.NewWriter(&zbuf)
+	for _, n := range []string{"a.txt", "dir/b.bin"} {
+		w, _ := zw.Create(n)
+		w.Write([]byte("hello " + n))
+	}
+	zw.Close()
+	data := zbuf.Bytes()
+	d, err := Read(bytes.NewReader(data), int64(len(data)))
+	if err != nil {
+		t.Fatal(err)
+	}
+	var cd, eod []byte
+	func() {
+		defer func() {
+			if r := recover(); r != nil {
+				t.Fatalf("GetOriginalDirectory panicked: %v", r)
+			}
+		}()
+		cd, eod, err = d.GetOriginalDirectory(false)
+	}()
+	if err != nil {
+		t.Fatal(err)
+	}
+	got := append(append([]byte{}, cd...), eod...)
+	if want := data[d.DirLoc:]; !bytes.Equal(got, want) {
+		t.Fatalf("re-serialised directory differs from the original bytes: %d bytes instead of %d", len(got), len(want))
 	}
 }
